@@ -22,7 +22,8 @@ NEG = [("lfht_2del", "owner_or"), ("lfht_2del", "gc_norestart"), ("lfht_shrink_r
 
 def run(ctx):
     q = ctx.quick()
-    L.run_lfht(ctx, COMP, QUICK if q else THOROUGH, nseeds=30 if q else 1000, nsim=8 if q else 200, both_modes=not q,
+    # lfht_shrink4 (4 -> 2 -> 1: two bucket-table orders released by ONE fini_table call): conformance only in the quick tier
+    L.run_lfht(ctx, COMP, QUICK + ["lfht_shrink4"] if q else THOROUGH, conf_only=("lfht_shrink4",) if q else (), nseeds=30 if q else 1000, nsim=8 if q else 200, both_modes=not q,
                mm_variants=() if q else ("chunk", "mmap"))
     if not q:
         L.negative_controls(ctx, COMP, NEG)
